@@ -323,7 +323,8 @@ func (e *Engine) preservedBy(fn *ssa.Function) []*FieldDecl {
 type notedAddr struct {
 	ref, off Term
 	t        *types.Named
-	size     int64
+	typ      types.Type
+	size     Term
 }
 
 type frameRec struct {
@@ -352,27 +353,84 @@ func (x *Exec) noteStructAddr(s *State, t types.Type, ref, off Term) {
 		return
 	}
 	x.notedSeen[key] = true
-	a := notedAddr{ref: ref, off: off, t: n, size: x.E.size(n)}
-	// Go type safety: pointers to struct types neither of which contains the
-	// other (by value) address disjoint leaf ranges.
-	for _, b := range x.notedAll {
-		if types.Identical(b.t, n) || b.ref.S == ref.S && b.off.S == off.S {
-			continue
-		}
-		if x.E.related(b.t, n) {
-			continue
-		}
-		disjoint := Or(Not(Eq(a.ref, b.ref)), BVCmp("bvule", offAdd(a.off, a.size), b.off), BVCmp("bvule", offAdd(b.off, b.size), a.off))
-		x.C.Assume(Implies(And(s.Reach, Not(Eq(a.ref, IntLit(0))), Not(Eq(b.ref, IntLit(0)))), disjoint))
-		x.C.Trusted["Go type safety: pointers to struct types neither of which contains the other address disjoint memory"] = true
-	}
-	x.notedAll = append(x.notedAll, a)
+	a := notedAddr{ref: ref, off: off, t: n, typ: n, size: BVLitI(64, x.E.size(n))}
+	x.noteRegion(s, a)
 	x.noted[n.Obj().Name()] = append(x.noted[n.Obj().Name()], a)
 	for _, fr := range x.frames {
 		if types.Identical(n, fr.fd.named) {
 			x.instFrame(fr, a)
 		}
 	}
+}
+
+// noteSlice records the backing region of a slice value.
+func (x *Exec) noteSlice(s *State, v Value) {
+	if x.C.noDefine > 0 {
+		return
+	}
+	sl, ok := v.T.Underlying().(*types.Slice)
+	if !ok || len(v.L) != 4 {
+		return
+	}
+	key := "slice|" + types.TypeString(sl.Elem(), nil) + "|" + v.L[0].S + "|" + v.L[1].S + "|" + v.L[3].S
+	if x.notedSeen[key] {
+		return
+	}
+	x.notedSeen[key] = true
+	x.noteRegion(s, notedAddr{ref: v.L[0], off: v.L[1], typ: sl.Elem(), size: mulOff(v.L[3], x.E.size(sl.Elem()))})
+}
+
+// noteRegion: Go type safety — typed regions whose types are unrelated (neither
+// contains the other by value) are disjoint.
+func (x *Exec) noteRegion(s *State, a notedAddr) {
+	for _, b := range x.notedAll {
+		if b.ref.S == a.ref.S && b.off.S == a.off.S {
+			continue
+		}
+		if x.E.typesRelated(a.typ, b.typ) {
+			continue
+		}
+		disjoint := Or(Not(Eq(a.ref, b.ref)), BVCmp("bvule", BVOp("bvadd", a.off, a.size), b.off), BVCmp("bvule", BVOp("bvadd", b.off, b.size), a.off))
+		x.C.Assume(Implies(And(s.Reach, Not(Eq(a.ref, IntLit(0))), Not(Eq(b.ref, IntLit(0)))), disjoint))
+		x.C.Trusted["Go type safety: memory regions of unrelated types (neither contains the other by value) are disjoint"] = true
+	}
+	x.notedAll = append(x.notedAll, a)
+}
+
+// typeContains: does a value of type outer contain a value of type inner (by value)?
+func typeContains(outer, inner types.Type, depth int) bool {
+	if depth > 5 {
+		return true // unknown: assume related
+	}
+	if types.Identical(outer, inner) {
+		return true
+	}
+	switch u := outer.Underlying().(type) {
+	case *types.Struct:
+		for i := 0; i < u.NumFields(); i++ {
+			if typeContains(u.Field(i).Type(), inner, depth+1) {
+				return true
+			}
+		}
+	case *types.Array:
+		return typeContains(u.Elem(), inner, depth+1)
+	case *types.Basic:
+		if ib, ok := inner.Underlying().(*types.Basic); ok {
+			// same machine representation may be reinterpreted through conversions of pointer types
+			return u.Kind() == ib.Kind() || (u.Info()&types.IsInteger != 0 && ib.Info()&types.IsInteger != 0)
+		}
+	}
+	return false
+}
+
+func (e *Engine) typesRelated(a, b types.Type) bool {
+	k := types.TypeString(a, nil) + "|" + types.TypeString(b, nil)
+	if r, ok := e.relatedCache2[k]; ok {
+		return r
+	}
+	r := typeContains(a, b, 0) || typeContains(b, a, 0)
+	e.relatedCache2[k] = r
+	return r
 }
 
 func (e *Engine) related(a, b *types.Named) bool {
